@@ -12,7 +12,6 @@ def configs(tier):
     return q + [
         ('one element: 2 children, 2 attributes over 3 names, text', dict(family='root_level', fam_kw=dict(docs=1, slots=2, attrs=2, text=True, leaf_form=False, root_form=False, names=['b', 'ns:c'], anames=['a', 'xmlns:h', 'type']))),
         ('one element: 2 children (same local name with/without prefix), 2 attributes over 4 names', dict(family='root_level', fam_kw=dict(docs=1, slots=2, attrs=2, text=True, leaf_form=False, root_form=False, names=['b', 'ns:b', 'type'], anames=['a', 'xmlns:h', 'h:c', 'type']))),
-        ('one element: 3 children, 2 attributes', dict(family='root_level', fam_kw=dict(docs=1, slots=3, attrs=2, text=True, leaf_form=False, root_form=False, names=['b', 'ns:c', 'self'], anames=['a', 'xmlns:h', 'h:c']))),
     ]
 
 def main():
@@ -24,7 +23,7 @@ def main():
     ]
     if c.setup():
         for label, kw in configs(c.tier):
-            c.run(label, 'rsym.hr', 'OptionsExact', kw, required_witnesses=('an attribute is rendered', 'text rendered'), time_cap=200 if c.tier == 'quick' else 900)
+            c.run(label, 'rsym.hr', 'OptionsExact', kw, required_witnesses=('an attribute is rendered', 'text rendered'), time_cap=600 if c.tier == 'quick' else 900)
     c.finish(bounds={'skeletons': [l for l, _ in configs(c.tier)], 'options': 'unbounded symbolic strings'}, outside=['documents outside the skeletons'],
              trusted=['rsym + models', 'z3 (sequence theory)', 'output reader', 'tools/replay'],
              technique='symbolic execution of the renderer with unconstrained symbolic option strings; binding/rename/derive clauses and the 2-run product over two option values decided by z3 per path')
